@@ -554,11 +554,17 @@ def g_static_markers(ch, pool, ctx, opts, depth):
     told so through the 'all_bits_zero' feature), one marker outside any replication, a fixed replication of
     n - 2 markers -- under a 201/202/207/208 pair opened and closed inside the body, or plain -- and a last marker
     outside again.  The only construct with marker operators that are not inside a replication."""
-    if ctx.epoch_len is not None or ctx.stored_bitmap or ctx.min_plain < 3:
+    if ctx.epoch_len is not None or ctx.stored_bitmap:
         return g_elem(ch, pool, ctx, opts, depth)
-    n = ch.int(3, min(ctx.min_plain, 5))
+    n = ch.int(3, 5)
     op = ch.weighted([(2, 224), (2, 223), (1, 232)])
-    blk = [op * 1000]
+    wrap = ch.weighted([(3, (201129, 201000)), (2, (202129, 202000)), (2, (207001, 207000)), (2, (208002, 208000)), (2, None)])
+    # the n elements the bitmap refers to come with the block; with a 208 pair one of them is a character element
+    own = [_pick_element(ch, pool, ctx, opts) for _ in range(n)]
+    if wrap and wrap[0] // 1000 == 208 and pool.strs:
+        own[ch.int(0, n - 1)] = ch.choice(pool.strs)
+    ctx.min_plain += n
+    blk = own + [op * 1000]
     reuse = ch.bool(1, 3)
     if reuse:
         blk.append(236000)
@@ -566,7 +572,6 @@ def g_static_markers(ch, pool, ctx, opts, depth):
     if op == 224:
         blk.append(8023)
     marker = op * 1000 + 255
-    wrap = ch.weighted([(3, (201129, 201000)), (2, (202129, 202000)), (2, (207001, 207000)), (1, (208002, 208000)), (2, None)])
     body = [wrap[0], marker, wrap[1]] if wrap else [marker]
     first_wrapped = wrap is not None and ch.bool(1, 4)
     blk += ([wrap[0], marker, wrap[1]] if first_wrapped else [marker])
